@@ -487,7 +487,6 @@ func (fc *FnCtx) staticDispatch(recv Val, m *types.Func) *ssa.Function {
 	return fc.eng.prog.MethodValue(sel)
 }
 
-
 // pureExternal: standard-library functions that keep or format the objects
 // they are given but never call back into them in a way that mutates tchannel
 // state (context values, formatting, string and time helpers).
